@@ -37,9 +37,44 @@ def _has_return(stmts):
     return False
 
 
-def _restructure(stmts, target):
+def _loop_returns(stmts, target, flag):
+    """inside a loop body: `return v` -> target = v; flag = True; break
+    (nested loops get `if flag: break` after them)."""
+    out = []
+    for st in stmts:
+        if isinstance(st, ast.Return):
+            if target is not None:
+                v = st.value if st.value is not None else ast.Constant(value=None)
+                out.append(ast.Assign(targets=[ast.Name(id=target, ctx=ast.Store())], value=v))
+            elif st.value is not None and not isinstance(st.value, (ast.Constant, ast.Name)):
+                out.append(ast.Expr(value=st.value))
+            out.append(ast.Assign(targets=[ast.Name(id=flag, ctx=ast.Store())],
+                                  value=ast.Constant(value=True)))
+            out.append(ast.Break())
+            return out
+        if isinstance(st, ast.If):
+            out.append(ast.If(test=st.test, body=_loop_returns(st.body, target, flag) or [ast.Pass()],
+                              orelse=_loop_returns(st.orelse, target, flag)))
+            continue
+        if isinstance(st, (ast.For, ast.While)) and _has_return([st]):
+            new = clone(st)
+            new.body = _loop_returns(st.body, target, flag)
+            out.append(new)
+            out.append(ast.If(test=ast.Name(id=flag, ctx=ast.Load()), body=[ast.Break()], orelse=[]))
+            continue
+        if isinstance(st, (ast.Try, ast.With)) and _has_return([st]):
+            raise _Fail('return inside try/with of the helper')
+        if isinstance(st, FUNC + (ast.ClassDef,)):
+            raise _Fail('nested definition in helper')
+        out.append(st)
+    return out
+
+
+def _restructure(stmts, target, flag=None):
     """Rewrite a helper body so that `return e` becomes `target = e` and
-    nothing executes afterwards (nested if/else).  Returns (stmts, terminated)."""
+    nothing executes afterwards (nested if/else; a return inside a loop sets a
+    flag and breaks, the rest of the body runs under `if not flag`).
+    Returns (stmts, terminated)."""
     out = []
     for i, st in enumerate(stmts):
         if isinstance(st, ast.Return):
@@ -51,26 +86,40 @@ def _restructure(stmts, target):
                 out.append(ast.Expr(value=st.value))
             return out, True
         if isinstance(st, ast.If):
-            body, tb = _restructure(st.body, target)
-            orelse, te = _restructure(st.orelse, target)
+            body, tb = _restructure(st.body, target, flag)
+            orelse, te = _restructure(st.orelse, target, flag)
             rest = stmts[i + 1:]
             if tb and te:
                 out.append(ast.If(test=st.test, body=body or [ast.Pass()], orelse=orelse))
                 return out, True
             if tb and not te:
-                rest_r, tr = _restructure(rest, target)
+                rest_r, tr = _restructure(rest, target, flag)
                 out.append(ast.If(test=st.test, body=body or [ast.Pass()],
                                   orelse=orelse + rest_r))
                 return out, tr
             if te and not tb:
-                rest_r, tr = _restructure(rest, target)
+                rest_r, tr = _restructure(rest, target, flag)
                 out.append(ast.If(test=st.test, body=body + rest_r or [ast.Pass()],
                                   orelse=orelse))
                 return out, tr
             out.append(ast.If(test=st.test, body=body or [ast.Pass()], orelse=orelse))
             continue
-        if isinstance(st, (ast.For, ast.While, ast.Try, ast.With)) and _has_return([st]):
-            raise _Fail('return inside a loop/try of the helper')
+        if isinstance(st, (ast.For, ast.While)) and _has_return([st]):
+            if flag is None:
+                raise _Fail('return inside a loop of the helper')
+            out.append(ast.Assign(targets=[ast.Name(id=flag, ctx=ast.Store())],
+                                  value=ast.Constant(value=False)))
+            new = clone(st)
+            new.body = _loop_returns(st.body, target, flag)
+            out.append(new)
+            rest_r, tr = _restructure(stmts[i + 1:], target, flag)
+            if rest_r:
+                out.append(ast.If(test=ast.UnaryOp(op=ast.Not(),
+                                                   operand=ast.Name(id=flag, ctx=ast.Load())),
+                                  body=rest_r, orelse=[]))
+            return out, False
+        if isinstance(st, (ast.Try, ast.With)) and _has_return([st]):
+            raise _Fail('return inside try/with of the helper')
         if isinstance(st, FUNC + (ast.ClassDef,)):
             raise _Fail('nested definition in helper')
         for n in ast.walk(st):
@@ -209,6 +258,8 @@ class Inliner:
             newblk = []
             for st in blk:
                 rep = self._try_stmt(st, nested, caller_names)
+                if rep is None:
+                    rep = self._hoist(st, nested, caller_names)
                 if rep is not None:
                     newblk.extend(rep)
                     changed = True
@@ -224,6 +275,51 @@ class Inliner:
                 if self._inline_block_owner(h, nested, caller_names):
                     changed = True
         return changed
+
+    def _hoist(self, st, nested, caller_names):
+        """A helper call nested in the header expression of a statement
+        (`if helper(x) == y:`, `v = f(helper(x))`): when everything evaluated
+        before it is free of calls, bind its value to a temporary first."""
+        field = {ast.If: 'test', ast.Assign: 'value', ast.Return: 'value',
+                 ast.Expr: 'value', ast.AugAssign: 'value', ast.For: 'iter'}.get(type(st))
+        if field is None:
+            return None
+        expr = getattr(st, field)
+        if expr is None:
+            return None
+        from .pyfront import eval_order
+        target = None
+        for x in eval_order(expr):
+            if isinstance(x, (ast.Lambda, ast.ListComp, ast.SetComp, ast.DictComp,
+                              ast.GeneratorExp, ast.IfExp, ast.BoolOp)):
+                # conditional evaluation: the call may not run at all
+                if any(isinstance(y, ast.Call) and self.helper_for(y, nested)[0] is not None
+                       for y in ast.walk(x)):
+                    return None
+            if isinstance(x, ast.Call):
+                helper, _ = self.helper_for(x, nested)
+                if helper is None:
+                    return None        # another call runs first
+                target = x
+                break
+        if target is None or target is expr:
+            return None
+        self.counter += 1
+        tmp = '_inl%d_val' % self.counter
+        caller_names.add(tmp)
+        pre = ast.Assign(targets=[ast.Name(id=tmp, ctx=ast.Store())], value=target)
+        ast.copy_location(pre, st)
+        rep = self._try_stmt(pre, nested, caller_names)
+        if rep is None:
+            return None
+
+        class R(ast.NodeTransformer):
+            def visit_Call(self, node):
+                if node is target:
+                    return ast.copy_location(ast.Name(id=tmp, ctx=ast.Load()), node)
+                return self.generic_visit(node)
+        setattr(st, field, R().visit(expr))
+        return rep + [st]
 
     def _try_stmt(self, st, nested, caller_names):
         call = None
@@ -279,10 +375,11 @@ class Inliner:
                 tname = '_inl%d_ret' % self.counter
             else:
                 tname = None
-            rs, term = _restructure(body, tname)
+            flag = '_inl%d_done' % self.counter
+            rs, term = _restructure(body, tname, flag)
             if not term and tname is not None:
-                rs.append(ast.Assign(targets=[ast.Name(id=tname, ctx=ast.Store())],
-                                     value=ast.Constant(value=None)))
+                rs.insert(0, ast.Assign(targets=[ast.Name(id=tname, ctx=ast.Store())],
+                                        value=ast.Constant(value=None)))
             sub = _Subst(mapping)
             rs = [sub.visit(s) for s in rs]
             out = pre + rs
